@@ -10,7 +10,7 @@ def primNames : List String := ["u32", "u64", "i32", "i64", "f32", "f64", "bool"
 
 /-- names a generated module may not use for its own items -/
 def reservedTypeNames : List String :=
-  rustKeywords ++ primNames ++ ["u8", "u16", "u128", "i8", "i16", "i128", "usize", "isize", "str", "char", "String", "T", "Bytes", "Error",
+  rustKeywords ++ primNames ++ ["u8", "u16", "u128", "i8", "i16", "i128", "usize", "isize", "char", "String", "T", "Bytes", "Error",
     "Vec", "Option", "Box", "Result", "Self", "Some", "None", "Ok", "Err", "WireSize", "DeserialiserExt", "TryFrom", "Debug", "Buf"]
 
 /-- local bindings of header.rs and of the emitted decoders: a tuple struct (typedef) or constant of the same
@@ -181,10 +181,23 @@ def usesC (m : Module) : Bool :=
 def bindingNamesOf (m : Module) : List String :=
   headerBindings ++ (if usesD m then ["d"] else []) ++ (if usesC m then ["c"] else [])
 
+/-- the value of a `pub const X: u32 = v;`: an integer literal that fits, or the name of another constant of the module whose own
+    value resolves (rustc rejects a cycle) -/
+def constResolves (m : Module) : Nat → String → Bool
+  | 0, _ => false
+  | fuel + 1, v =>
+    match parseIntLit v with
+    | some x => x < 2^32
+    | none =>
+      isIdent v && !(isKeyword v) &&
+      (match m.types.find? (fun d => match d with | .const n _ => n == v | _ => false) with
+       | some (.const _ v') => constResolves m fuel v'
+       | _ => false)
+
 def declOk (a : Ast) (m : Module) (d : TypeDecl) : Bool :=
   match d with
   | .const n v => isIdent n && !(reservedTypeNames.contains n) && !((bindingNamesOf m).contains n) &&
-      (match parseIntLit v with | some x => x < 2^32 | none => false)
+      constResolves m (m.types.length + 1) v
   | .struct n g fs =>
     isIdent n && !(reservedTypeNames.contains n) && fs.all (fun f => f.2.wellFormed m && isIdent (safeName f.1)) &&
     (fs.any (·.2.usesT)) == g && ((fs.map fun f => safeName f.1).eraseDups.length == fs.length)
